@@ -590,6 +590,8 @@ func c08Gen(g *hx.Gen) {
 	if g.Thorough() {
 		maxLen = 3
 	}
+	core := []string{"L:A1", "L:B12", "L:H1", "L:O1", "L:Pa1", "L:Pm1", "L:Pn1", "L:syn", "L:argL", "L:logE", "L:leak13",
+		"L:ty-proxi", "V:H1", "V:Pm1", "X"}
 	// the property's shape: any attempts, then a valid configuration — a plain one and an ORDER-SENSITIVE one, whose
 	// behaviour must be that of a fresh process whatever was attempted before
 	finals0 := []string{"L:B12", "L:O1"}
@@ -614,7 +616,11 @@ func c08Gen(g *hx.Gen) {
 		if n == 0 {
 			return
 		}
-		for _, a := range alpha {
+		next := alpha
+		if len(prefix) == 2 {
+			next = core // the third attempt of the thorough tier comes from the core of the alphabet
+		}
+		for _, a := range next {
 			rec(append(append([]string(nil), prefix...), a), n-1)
 		}
 	}
